@@ -123,9 +123,9 @@ fn run_threads(pm: &Arc<PersistenceManager>, tenant: &str, progs: &[Vec<Op>], sc
             g = g2;
             if to.timed_out() {
                 waited += 1;
-                if waited > 20 {
+                if waited > 120 {
                     trace.push(format!("{}.stuck", t));
-                    return Some(format!("thread {} did not reach its next hook point within 10 s", t));
+                    return Some(format!("thread {} did not reach its next hook point within 60 s", t));
                 }
             }
         }
@@ -289,7 +289,8 @@ fn main() {
             if let Some(c) = parse_case(line) { cases.push(c); }
         }
     }
-    rep.count_n("corpus_cases", cases.len() as u64);
+    let n_corpus = cases.len();
+    rep.count_n("corpus_cases", n_corpus as u64);
     if args.replay.is_none() {
         let mk = |id: u64| vec![Op::CreateNode { id, labels: vec![], props: vec![] }];
         // (a) 2 threads x 1 creation, quota 1-2: every interleaving of 6 + 6 micro-steps
@@ -318,7 +319,7 @@ fn main() {
         );
         // (c) random programs and schedules
         let mut rng = Rng::new(args.seed);
-        let n = if args.thorough() { 30_000 } else { 1_500 };
+        let n = if args.thorough() { 120_000 } else { 1_500 };
         for _ in 0..n { cases.push(gen_case(&mut rng)); }
     }
 
@@ -440,6 +441,17 @@ fn main() {
             rep.count("model_mismatch");
             if first_break.is_none() { first_break = Some(body); }
         }
+    }
+    // model self-test: the model of the pinned tree differs on the corpus witnesses
+    {
+        let mut l = vec![];
+        for c in cases.iter().take(n_corpus) {
+            l.push(format!("quota {} {} {}", c.cfg.render(), render_progs(&c.progs), render_sched(&c.sched)));
+            l.push(format!("quotalegacy {} {} {}", c.cfg.render(), render_progs(&c.progs), render_sched(&c.sched)));
+        }
+        let r = driver::batch(&exe, &l);
+        let detected = r.chunks(2).filter(|c| c[0] != c[1]).count();
+        rep.extra.insert("model_self_test".into(), json!({"mutants": r.len() / 2, "detected": detected}));
     }
     if let Some(body) = first_break {
         if rep.spec_violations.is_empty() {
